@@ -58,4 +58,18 @@ VARIANTS = [
     V("C20", "unparse round trip", GEN, "<<unparse>>", "", None),
     V("C20", "benign: guard as equality chain", GEN, "if assigned_by in {ParameterAssignment.POSITIONAL_VARARG, ParameterAssignment.NAMED_VARARG}:", "if assigned_by == ParameterAssignment.POSITIONAL_VARARG or assigned_by == ParameterAssignment.NAMED_VARARG:", None),
     V("C20", "benign: extra unused table key", GEN, '                "unknown": "Unknown type - Type could not be parsed.",', '                "unknown": "Unknown type - Type could not be parsed.",\n                "spare": "Unused.",', None),
+    # ------------------------------------------------------------------ C05
+    V("C05", "swap Int/Float", GEN, '                case "int":\n                    return "Int"', '                case "int":\n                    return "Float"', "C05.LEAF-TABLE"),
+    V("C05", "Sequence to SetType", VIS, '                    case "Sequence":\n                        return sds_types.ListType(types=types)', '                    case "Sequence":\n                        return sds_types.SetType(types=types)', "C05.CTOR-TABLE"),
+    V("C05", "FinalType raw child", GEN, '            return self._create_type_string(type_data["type"])', '            return str(type_data["type"])', "C05.KIND-RENDER"),
+    V("C05", "union list comprehension", GEN, 'types = list({self._create_type_string(type_) for type_ in type_data["types"]})', 'types = [self._create_type_string(type_) for type_ in type_data["types"]]', "C05.UNION-NORMAL"),
+    V("C05", "union no sort", GEN, '            types.sort()\n\n            if types:\n                if len(types) == 2 and none_type_name in types and has_named_type:', '            if types:\n                if len(types) == 2 and none_type_name in types and has_named_type:', "C05.UNION-NORMAL"),
+    V("C05", "dict value untranslated", GEN, '            value_data = self._create_type_string(type_data["value_type"])', '            value_data = type_data["value_type"]["kind"]', "C05.RECURSE"),
+    V("C05", "dict key/value swapped in visitor", VIS, "                    key_type=self.mypy_type_to_abstract_type(mypy_type.args[0]),\n                    value_type=self.mypy_type_to_abstract_type(mypy_type.args[1]),", "                    key_type=self.mypy_type_to_abstract_type(mypy_type.args[1]),\n                    value_type=self.mypy_type_to_abstract_type(mypy_type.args[0]),", "C05.CTOR-TABLE"),
+    V("C05", "nullable for 3 members", GEN, "if len(types) == 2 and none_type_name in types and has_named_type:", "if len(types) >= 2 and none_type_name in types and has_named_type:", "C05.UNION-NORMAL"),
+    V("C05", "none test self-conjunction", GEN, 'type_["kind"] == "NamedType" and type_["qname"] == "builtins.None" for type_ in type_data["types"]', 'type_["kind"] == "NamedType" and type_["kind"] for type_ in type_data["types"]', "C05.NONE-TEST"),
+    V("C05", "callable args untranslated", VIS, "parameter_types=[self.mypy_type_to_abstract_type(arg_type) for arg_type in mypy_type.arg_types],", "parameter_types=[sds_types.NamedType(name=str(arg_type), qname=str(arg_type)) for arg_type in mypy_type.arg_types],", "C05.CTOR-TABLE"),
+    V("C05", "tuple rendered as List", GEN, '            return f"Tuple<{\', \'.join(types)}>"', '            return f"List<{\', \'.join(types)}>"', "C05.KIND-RENDER"),
+    V("C05", "unparse round trip", GEN, "<<unparse>>", "", None),
+    V("C05", "benign: leaf match as if-chain", GEN, '                case "int":\n                    return "Int"\n                case "str":\n                    return "String"', '                case "int":\n                    return "Int"\n                case "str" if True:\n                    return "String"', None),
 ]
